@@ -73,7 +73,8 @@ theorem good_tuple {g : GCtx} (hg : GOK g) (ip : Bool) (b : Ty) (ps : List Ty) (
     have hsp := special_tuple henv hfs
     obtain ⟨pres, hp1, hp2⟩ := listGood_parse ihps (henv.mono (by
       intro y hy; simp [tyAdds, hy]))
-    refine ⟨.tuple (.named "tuple") pres, ?_, ?_⟩
+    refine ⟨.tuple (.named "tuple") pres, ?_, ?_,
+      headOK_single henv (x := "tuple") (by decide) (fSimple_facts hfs).2.2 (by decide) (by decide) rfl⟩
     · rw [tyExpr_tuple, e1, he]
       by_cases hp : ps = []
       · subst hp
@@ -155,9 +156,11 @@ theorem good_callable {g : GCtx} (hg : GOK g) (ip : Bool) (b : Ty) (qs : List Ty
       rw [resolveType_imp henv (by rw [haddsC]; simp) (by decide)]; rfl
     obtain ⟨presq, hq1, hq2⟩ := listGood_parse ihq (henv.mono (by
       intro y hy; rw [haddsC]; simp [hy]))
-    obtain ⟨prer, hr1, hr2⟩ := ir3 d (henv.mono (by
+    obtain ⟨prer, hr1, hr2, _⟩ := ir3 d (henv.mono (by
       intro y hy; rw [haddsC]; simp [hy]))
-    refine ⟨.callable (.named "typing.Callable") (presq ++ [prer]), ?_, ?_⟩
+    refine ⟨.callable (.named "typing.Callable") (presq ++ [prer]), ?_, ?_,
+      headOK_typing_sub (n := "typing.Callable") (x := "Callable") (by decide) (by decide) (by decide) rfl
+        (by intro m; simp)⟩
     · rw [tyExpr_callable, e1, parseTy_sub_callable d _ _ hsp, if_neg (by simp)]
       simp only [parseArgs, parseTys_types hq1]
       rw [parseArgs_cons_type d _ _ (tyExpr_shape ip r), hr1]
